@@ -480,7 +480,9 @@ class Interp:
             if r.known and r.const is None:
                 if l.known:
                     out.const = (l.const is None) == pos
-                elif l.tag("notnone"):
+                elif l.tag("notnone") or l.shape is not None or l.unit is not None or l.items is not None \
+                        or l.tag("kind") in ("ndarray", "int", "list", "tuple", "dict", "bool", "str", "rng", "generator") \
+                        or l.tag("isnum") or l.tag("cvx"):
                     out.const = not pos
             elif l.known and r.known:
                 out.const = (l.const is r.const) == pos
@@ -489,8 +491,8 @@ class Interp:
             pos = isinstance(op, ast.Eq)
             if l.known and r.known and _scalar(l.const) and _scalar(r.const):
                 out.const = (l.const == r.const) == pos
-            elif l.tag("dim") is not None and r.tag("dim") is not None and l.tag("dim") == r.tag("dim"):
-                out.const = pos
+            elif _dimv(l) is not None and _dimv(r) is not None and (_dimv(l) == _dimv(r) or (_concrete(_dimv(l)) and _concrete(_dimv(r)))):
+                out.const = (_dimv(l) == _dimv(r)) == pos
             elif (l.known and r.tag("kind") in ("ndarray",)) or (r.known and l.tag("kind") == "ndarray"):
                 pass
             else:
@@ -502,6 +504,11 @@ class Interp:
             self.elementwise_shape(e, out, l, r)
             return out
         if isinstance(op, (ast.Lt, ast.LtE, ast.Gt, ast.GtE)):
+            from .extern import _conc
+            lk = l.const if (l.known and _num(l.const)) else (_conc(_dimv(l)) if _dimv(l) is not None else None)
+            rk = r.const if (r.known and _num(r.const)) else (_conc(_dimv(r)) if _dimv(r) is not None else None)
+            if lk is not None and rk is not None and not (l.known and r.known):
+                out.const = {ast.Lt: lk < rk, ast.LtE: lk <= rk, ast.Gt: lk > rk, ast.GtE: lk >= rk}[type(op)]
             if l.known and r.known and _num(l.const) and _num(r.const):
                 out.const = {ast.Lt: l.const < r.const, ast.LtE: l.const <= r.const,
                              ast.Gt: l.const > r.const, ast.GtE: l.const >= r.const}[type(op)]
@@ -533,7 +540,10 @@ class Interp:
             return
         ok, _ = ueq(l.unit, r.unit)
         if not ok:
-            self.type_error(e, "QTY", f"comparison of [{ustr(l.unit)}] with [{ustr(r.unit)}]")
+            self.type_error(e, "QTY", f"comparison of [{ustr(l.unit)}] with [{ustr(r.unit)}]",
+                            sub=("literal" if (l.unit == ONE and (l.tag("isnum") or l.known)) or (r.unit == ONE and (r.tag("isnum") or r.known)) else "mismatch"))
+        elif isinstance(l.unit, dict) and isinstance(r.unit, dict) and l.unit:
+            self.emit("typed_op", e, op="cmp", unit=l.unit)
 
     def elementwise_shape(self, e, out, l, r):
         from .extern import broadcast_shapes
@@ -807,7 +817,7 @@ class Interp:
                 return r
         depth = fr.depth + 1
         rec = sum(1 for q in fr.path if q == fn.qual)
-        if depth > MAX_DEPTH or rec >= 2:
+        if depth > MAX_DEPTH or rec >= 1:
             self.ctx.note(f"call depth/recursion cut at {fn.qual}")
             r = self.opaque_call(e, args, kws)
             ev.d["result"] = r
@@ -1414,6 +1424,19 @@ BUILTIN_NAMES = {"len", "range", "enumerate", "zip", "isinstance", "list", "tupl
                  "staticmethod", "classmethod", "property", "Ellipsis", "NotImplemented", "repr", "open",
                  "setattr", "vars", "issubclass", "bytes", "complex", "UnboundLocalError", "ZeroDivisionError",
                  "StopIteration", "FutureWarning", "OverflowError", "FloatingPointError", "BaseException"}
+
+
+def _dimv(v):
+    from .extern import as_dim
+    if v.tag("dim", "nodim") != "nodim":
+        return v.tag("dim")
+    if v.known and isinstance(v.const, int) and not isinstance(v.const, bool) and v.const >= 1:
+        return as_dim(v)
+    return None
+
+
+def _concrete(d):
+    return d == () or (d is not None and len(d) == 1 and d[0].startswith("#"))
 
 
 def _scalar(c):
